@@ -84,6 +84,7 @@ class Ctx:
         self.allow_concretize = False
         self.consts = {}  # name -> (z3 var, float) algebraic constants (sqrt 2, sqrt 3, ...)
         self.monotone = False  # add pairwise strict-monotonicity axioms between atoms of exp/log/sqrt/erf/atan
+        self.pythagoras = False  # add sin(t)^2 + cos(t)^2 = 1 for pairs of atoms with the same argument (opt-in: nonlinear)
         self.exp_bounds = False  # add the sound Taylor bounds  e^t >= 1+t,  e^t (1-t) <= 1,  t<=0 -> e^t (1-t+t^2/2) <= 1
 
     def check(self, f, timeout=30000):
@@ -832,7 +833,7 @@ _PYTH = set()
 def _pythagoras(fname, arg, r):
     """sin(t)^2 + cos(t)^2 = 1 once both atoms exist for the same (solver-validated) argument: a sound axiom"""
     other = "cos" if fname == "sin" else "sin"
-    if r.is_const():
+    if r.is_const() or not CTX.pythagoras:
         return
     for a, ro in CTX.fun.get(other, []):
         pair = (min(r.n.get_id(), ro.n.get_id()), max(r.n.get_id(), ro.n.get_id()))
